@@ -262,3 +262,60 @@ pub fn b_state(op: u8) {
     }
     end_reached!();
 }
+
+// ------------------------------------------------------------------------------------------
+// Cursor twins: one step of Rows / RowsMut / Col / ColMut from a state with `items` remaining.
+// (Any such state is the state of a fresh iterator over a view with `items` rows.)
+
+/// ty: 0 Rows, 1 RowsMut, 2 Col, 3 ColMut ; meth: 0 next, 1 next_back, 2 nth, 3 nth_back, 4 size_hint
+/// draws: cols, skip, items, n
+pub fn b_cursor(ty: u8, meth: u8) {
+    let cols = nd::usize_();
+    let skip = nd::usize_();
+    let items = nd::usize_();
+    let n = nd::usize_();
+    nd::assume(cols >= 1 && cols <= 64 && skip <= 64 && items <= 64);
+    let is_col = ty >= 2;
+    // rows iterators: window `cols` wide in a parent `cols+skip` wide; column iterators: stride skip+1
+    let stride = if is_col { skip + 1 } else { cols + skip };
+    let width = if is_col { 1 } else { cols };
+    let mut buf = grid(stride, items.max(1));
+    let base = buf.as_ptr();
+    let len = stride * items.max(1);
+    let mut parent = TooDeeViewMut::new(stride, items.max(1), &mut buf[..len]);
+    let mut v = parent.view_mut((0, 0), (width, items));
+    // model
+    let step = stride;
+    let expect: Option<usize>; // index of the item the call must return
+    let remaining: usize;
+    match meth {
+        0 => { expect = if items > 0 { Some(0) } else { None }; remaining = items.saturating_sub(1); }
+        1 => { expect = if items > 0 { Some(items - 1) } else { None }; remaining = items.saturating_sub(1); }
+        2 => { expect = if n < items { Some(n) } else { None }; remaining = if n < items { items - n - 1 } else { 0 }; }
+        3 => { expect = if n < items { Some(items - 1 - n) } else { None }; remaining = if n < items { items - n - 1 } else { 0 }; }
+        _ => { expect = None; remaining = items; }
+    }
+    macro_rules! drive {
+        ($it:expr, $ptr:expr) => {{
+            let mut it = $it;
+            if meth == 4 {
+                assert!(it.size_hint() == (items, Some(items)), "ORACLE: size_hint differs from the ideal sequence");
+            } else {
+                let got = match meth { 0 => it.next(), 1 => it.next_back(), 2 => it.nth(n), _ => it.nth_back(n) };
+                match (got, expect) {
+                    (None, None) => {}
+                    (Some(x), Some(i)) => assert!($ptr(x) == base.wrapping_add(i * step), "ORACLE: cursor step returned another item"),
+                    _ => panic!("ORACLE: cursor step Some/None differs from the ideal sequence"),
+                }
+                assert!(it.len() == remaining, "ORACLE: remaining length after the step differs from the ideal sequence");
+            }
+        }};
+    }
+    match ty {
+        0 => drive!(v.rows(), |x: &[u8]| x.as_ptr()),
+        1 => drive!(v.rows_mut(), |x: &mut [u8]| x.as_ptr()),
+        2 => drive!(v.col(0), |x: &u8| x as *const u8),
+        _ => drive!(v.col_mut(0), |x: &mut u8| x as *const u8),
+    }
+    end_reached!();
+}
